@@ -18,11 +18,12 @@ import (
 )
 
 type graphCase struct {
-	P      *gen.Prof
-	C      rep.Conf
-	Format string // dot, callgrind, web-top, web-flamegraph
-	Trim   bool
-	Diff   bool // add negated mirrored samples (entries whose flat and cum cancel)
+	P         *gen.Prof
+	C         rep.Conf
+	Format    string // dot, callgrind, web-top, web-flamegraph
+	Trim      bool
+	Diff      bool // add negated mirrored samples (entries whose flat and cum cancel)
+	TagCancel bool // a labelled sample and its negation with a different "bytes" value: the label totals zero, its numeric tags do not
 }
 
 var metaOpts = gen.Opts{Alpha: gen.Meta, MaxSamples: 6, MaxDepth: 4, MaxLines: 3, MinTypes: 1, MaxTypes: 2, SmallVals: true, AnyIDs: true, NoHugeIDs: true,
@@ -47,7 +48,7 @@ func genCase(t *rapid.T) *graphCase {
 	}
 	p.Time, p.Duration = 0, 0
 	c := &graphCase{P: p, Format: rapid.SampledFrom([]string{"dot", "dot", "callgrind", "callgrind", "web-top", "web-flamegraph"}).Draw(t, "format"),
-		Trim: rapid.Bool().Draw(t, "trim"), Diff: rapid.IntRange(0, 2).Draw(t, "diff") == 0}
+		Trim: rapid.Bool().Draw(t, "trim"), Diff: rapid.IntRange(0, 2).Draw(t, "diff") == 0, TagCancel: rapid.IntRange(0, 3).Draw(t, "tagcancel") == 0}
 	c.C = rep.GenConf(t, p, []string{"dot"})
 	c.C.Mean = false
 	return c
@@ -65,6 +66,30 @@ func buildProfile(c *graphCase) *profile.Profile {
 			}
 			m.Labels = nil
 			gp.Samples = append(gp.Samples, m)
+			break
+		}
+	}
+	if c.TagCancel {
+		if !c.Diff {
+			gp.Samples = append([]gen.Sample{}, c.P.Samples...)
+		}
+		for i, s := range c.P.Samples {
+			if len(s.Labels) == 0 || len(s.Locs) == 0 {
+				continue
+			}
+			a, b := s, s
+			a.Nums = []gen.NumLabel{{Key: "bytes", Vals: []int64{16}}}
+			b.Nums = []gen.NumLabel{{Key: "bytes", Vals: []int64{4096}}}
+			b.Values = make([]int64, len(s.Values))
+			for j, v := range s.Values {
+				b.Values[j] = -v
+			}
+			gp.Samples[i] = a
+			gp.Samples = append(gp.Samples, b)
+			// keep the node in the graph
+			k := s
+			k.Labels, k.Nums = nil, nil
+			gp.Samples = append(gp.Samples, k)
 			break
 		}
 	}
